@@ -2760,3 +2760,218 @@ twin('C03-twin-share-temp', 'C03',
      [(_EL, "    vote_fractions = votes / bootstrap_iteration\n",
        "    n_iter = bootstrap_iteration\n"
        "    vote_fractions = votes / n_iter\n")])
+
+# ======================================================================
+# rules added after the fifth seeding round
+# ======================================================================
+_SU = P+'utils/sparse_utils.py'
+mutant('C13-single-row-returns-sorted', 'C13',
+       'a short-cut for requests of two rows returns them as read',
+       [(_SU, "    row_chunk_list = merge_index_list(row_index_list)\n"
+         "    data_list = []\n",
+         "    row_chunk_list = merge_index_list(row_index_list)\n"
+         "    if len(row_index_list) == 2 and len(row_chunk_list) == 1:\n"
+         "        return _load_sparse(\n"
+         "            indptr_spec=row_chunk_list[0], data=data,\n"
+         "            indices=indices, indptr=indptr)\n"
+         "    data_list = []\n")],
+       'R-PERM/unsort-before-return', '_load_disjoint_csr')
+twin('C13-twin-inverse-by-argsort', 'C13',
+     'inverse permutation computed with a second argsort',
+     [(_SU, "    inverse_argsort = {sorted_dex[ii]: ii "
+       "for ii in range(len(sorted_dex))}\n",
+       "    inverse_argsort = np.argsort(sorted_dex)\n")])
+
+_OU = P+'utils/output_utils.py'
+mutant('C15-position-table-shared-list', 'C15',
+       'per-level code tables all built from one shared dict',
+       [(_OU, "    node_to_int = dict()\n    int_to_node = dict()\n",
+         "    node_to_int = dict.fromkeys(taxonomy_tree.hierarchy, {})\n"
+         "    int_to_node = dict()\n"),
+        (_OU, "        node_to_int[level] = dict()\n        these_nodes",
+         "        these_nodes")],
+       'R-IDIOM/shared-mutable', '_blob_to_hdf5_results')
+twin('C15-twin-table-by-comprehension', 'C15',
+     'per-level code tables created by a comprehension (one dict each)',
+     [(_OU, "    node_to_int = dict()\n    int_to_node = dict()\n",
+       "    node_to_int = {lv: dict() for lv in taxonomy_tree.hierarchy}\n"
+       "    int_to_node = dict()\n"),
+      (_OU, "        node_to_int[level] = dict()\n        these_nodes",
+       "        these_nodes")])
+
+_MC = P+'type_assignment/marker_cache_v2.py'
+mutant('C08-reference-index-typed-by-query', 'C08',
+       'reference gene positions stored in a type sized for the query',
+       [(_MC, "            out_grp.create_dataset(\n"
+         "                'reference',\n"
+         "                data=np.array(these_reference))\n",
+         "            out_grp.create_dataset(\n"
+         "                'reference',\n"
+         "                data=np.array(these_reference).astype(\n"
+         "                    choose_int_dtype((0, len(query_gene_names)))))\n"
+         ),
+        (_MC, "import warnings\n",
+         "import warnings\n"
+         "from cell_type_mapper.utils.utils import choose_int_dtype\n")],
+       'R-CAP/index-dtype', 'reference_name_to_int')
+twin('C08-twin-index-typed-by-both', 'C08',
+     'gene positions stored in a type sized for the longer gene list',
+     [(_MC, "            out_grp.create_dataset(\n"
+       "                'reference',\n"
+       "                data=np.array(these_reference))\n"
+       "            out_grp.create_dataset(\n"
+       "                'query',\n"
+       "                data=np.array(these_query))\n",
+       "            idx_dtype = choose_int_dtype(\n"
+       "                (0, max(len(reference_gene_names),\n"
+       "                        len(query_gene_names))))\n"
+       "            out_grp.create_dataset(\n"
+       "                'reference',\n"
+       "                data=np.array(these_reference, dtype=idx_dtype))\n"
+       "            out_grp.create_dataset(\n"
+       "                'query',\n"
+       "                data=np.array(these_query, dtype=idx_dtype))\n"),
+      (_MC, "import warnings\n",
+       "import warnings\n"
+       "from cell_type_mapper.utils.utils import choose_int_dtype\n")])
+
+_VU = P+'validation/utils.py'
+mutant('C16-unknown-species-means-no-change', 'C16',
+       'identifiers of an unrecognised species are left as they are',
+       [(_VU, "            if log is not None:\n"
+         "                log.error(msg)\n"
+         "            else:\n"
+         "                raise RuntimeError(msg)\n",
+         "            if log is not None:\n"
+         "                log.warn(msg)\n"
+         "            return None, 0\n")],
+       'R-MUST/mapper-consulted', 'map_gene_ids_in_var')
+twin('C16-twin-mapper-result-unpacked', 'C16',
+     'mapper output taken apart in one statement',
+     [(_VU, "    mapping_output = gene_id_mapper.map_gene_identifiers("
+       "gene_id_list)\n"
+       "    new_gene_id_list = mapping_output['mapped_genes']\n",
+       "    mapping_output = gene_id_mapper.map_gene_identifiers(\n"
+       "        gene_id_list)\n"
+       "    new_gene_id_list, n_bad = (mapping_output['mapped_genes'],\n"
+       "                               mapping_output['n_unmapped'])\n")])
+
+_ABC = P+'cli/precompute_stats_abc.py'
+mutant('C09-cell-sets-keyed-by-stripped-label', 'C09',
+       'dataset -> cells table keyed by the label with blanks removed',
+       [(_ABC, "                if dataset_label not in dataset_to_cell_set:\n"
+         "                    dataset_to_cell_set[dataset_label] = set()\n"
+         "                dataset_to_cell_set[dataset_label].add(cell_id)\n",
+         "                key = dataset_label.strip()\n"
+         "                if key not in dataset_to_cell_set:\n"
+         "                    dataset_to_cell_set[key] = set()\n"
+         "                dataset_to_cell_set[key].add(cell_id)\n")],
+       'R-SAMEVAL/dataset-label-keys', 'run')
+twin('C09-twin-datasets-sorted', 'C09',
+     'datasets visited in sorted order, loop variable renamed',
+     [(_ABC, "                for dataset in dataset_values:\n"
+       "                    sanitized = dataset.replace(\" \", \"_\")"
+       ".replace(\"/\", \".\")\n",
+       "                for label in sorted(dataset_values):\n"
+       "                    dataset = label\n"
+       "                    sanitized = label.replace(\" \", \"_\")"
+       ".replace(\"/\", \".\")\n")])
+
+_TU = P+'type_assignment/utils.py'
+mutant('C01-reconcile-rejects-empty-levels', 'C01',
+       'reconciliation fails when no level of the cache is fully present',
+       [(_TU, "    if len(missing_nodes) == 0:\n        return (True, '')\n",
+         "    if len(valid_levels) == 0 and len(parent_list) > 1:\n"
+         "        return (False, 'marker cache has no complete level')\n"
+         "    if len(missing_nodes) == 0:\n        return (True, '')\n")],
+       'R-MUST/rejects-only-missing-parent',
+       'reconcile_taxonomy_and_markers')
+twin('C01-twin-reconcile-truthiness', 'C01',
+     'nothing-missing test written as truthiness of the list',
+     [(_TU, "    if len(missing_nodes) == 0:\n        return (True, '')\n",
+       "    if not missing_nodes:\n        return (True, '')\n")])
+
+_TT = P+'taxonomy/taxonomy_tree.py'
+mutant('C10-no-pairs-for-single-level', 'C10',
+       'a one-level taxonomy is said to need no comparisons',
+       [(_TT, "        result = get_all_leaf_pairs(\n"
+         "            taxonomy_tree=self._data,\n"
+         "            parent_node=parent_node)\n        return result\n",
+         "        if len(self._data['hierarchy']) == 1:\n"
+         "            return []\n"
+         "        result = get_all_leaf_pairs(\n"
+         "            taxonomy_tree=self._data,\n"
+         "            parent_node=parent_node)\n        return result\n")],
+       'R-MUST/pairs-from-the-tree', 'leaves_to_compare')
+twin('C10-twin-shortcut-on-own-children', 'C10',
+     'short-cut for a parent with a single child, tested on its children',
+     [(_TT, "        result = get_all_leaf_pairs(\n"
+       "            taxonomy_tree=self._data,\n"
+       "            parent_node=parent_node)\n        return result\n",
+       "        if parent_node is not None and len(self.children(\n"
+       "                parent_node[0], parent_node[1])) < 2:\n"
+       "            return []\n"
+       "        result = get_all_leaf_pairs(\n"
+       "            taxonomy_tree=self._data,\n"
+       "            parent_node=parent_node)\n        return result\n")])
+
+_AI = P+'anndata_iterator/anndata_iterator.py'
+mutant('C20-missing-file-as-keyerror', 'C20',
+       'missing query file reported with a KeyError',
+       [(_AI, "            raise RuntimeError(\n"
+         "                f\"{h5ad_path} is not a file\")\n",
+         "            raise KeyError(\n"
+         "                f\"{h5ad_path} is not a file\")\n")],
+       'R-ROLE/path-in-message/rendered-as-text', 'AnnDataRowIterator')
+twin('C20-twin-missing-file-as-oserror', 'C20',
+     'missing query file reported with a FileNotFoundError',
+     [(_AI, "            raise RuntimeError(\n"
+       "                f\"{h5ad_path} is not a file\")\n",
+       "            raise FileNotFoundError(\n"
+       "                f\"{h5ad_path} is not a file\")\n")])
+
+twin('C18-twin-denominator-np-maximum', 'C18',
+     'cell count floored with np.maximum',
+     [(P+'diff_exp/score_utils.py',
+       "    mu = sum_arr/max(1, n_cells)\n",
+       "    mu = sum_arr/np.maximum(1, n_cells)\n")])
+
+_PA = P+'diff_exp/precompute_from_anndata.py'
+mutant('C09-normalization-left-to-default', 'C09',
+       'the declared normalization is not handed to the per-tree routine',
+       [(_PA, "        rows_at_a_time=rows_at_a_time,\n"
+         "        normalization=normalization,\n"
+         "        tmp_dir=tmp_dir,\n"
+         "        n_processors=n_processors)\n\n\n"
+         "def precompute_summary_stats_from_h5ad_and_tree(\n",
+         "        rows_at_a_time=rows_at_a_time,\n"
+         "        tmp_dir=tmp_dir,\n"
+         "        n_processors=n_processors)\n\n\n"
+         "def precompute_summary_stats_from_h5ad_and_tree(\n")],
+       'R-FWD/parameter-forwarded', 'normalization')
+twin('C09-twin-settings-through-dict', 'C09',
+     'settings handed down through a literal dict',
+     [(_PA, "        rows_at_a_time=rows_at_a_time,\n"
+       "        normalization=normalization,\n"
+       "        tmp_dir=tmp_dir,\n"
+       "        n_processors=n_processors)\n\n\n"
+       "def precompute_summary_stats_from_h5ad_and_tree(\n",
+       "        **{'rows_at_a_time': rows_at_a_time,\n"
+       "           'normalization': normalization,\n"
+       "           'tmp_dir': tmp_dir,\n"
+       "           'n_processors': n_processors})\n\n\n"
+       "def precompute_summary_stats_from_h5ad_and_tree(\n")])
+
+mutant('C05-dense-rows-put-back-by-sorted-position', 'C05',
+       'dense row batch put back with the permutation instead of its '
+       'inverse',
+       [(_AI, "        for ii, idx in enumerate(meta_sort):\n"
+         "            output[idx, :] = raw[ii, :]\n",
+         "        for ii, idx in enumerate(meta_sort):\n"
+         "            output[ii, :] = raw[idx, :]\n")],
+       'R-PERM/unsort-pair', 'get_batch')
+twin('C05-twin-dense-rows-vectorised', 'C05',
+     'dense row batch put back with one fancy-index store',
+     [(_AI, "        for ii, idx in enumerate(meta_sort):\n"
+       "            output[idx, :] = raw[ii, :]\n",
+       "        output[meta_sort, :] = raw\n")])
